@@ -49,7 +49,56 @@ def gen_cases(tier, seed):
                 cases.append({"id": cid, "sig": [layout, enc, alg, list(opts)], "layout": layout, "enc": enc, "alg": alg,
                               "opts": list(opts), "pairs": tier == "thorough" and k == 0 and alg == "idp",
                               "identity": gen.identity(random.Random("%s/%s" % (seed, cid)), hostile=False)})
+    # one SP object shared by threads: a forged copy of a signed response (same IDs, Signature untouched, content edited) is delivered while
+    # the genuine one is being verified by another thread, yields injected inside the library
+    for k in range(3 if tier == "quick" else 24):
+        cases.append({"id": "threads-%d" % k, "sig": ["threads", k], "kind": "threads", "k": k, "opts": list(OPTS[k % len(OPTS)]), "layout": ["R", "A", "RA"][k % 3],
+                      "rounds": 10 if tier == "quick" else 40, "identity": gen.identity(random.Random("%s/threads/%d" % (seed, k)), hostile=False)})
     return cases
+
+
+def run_threads_case(case, ctx):
+    from vlib import interleave
+    sp, idp = _pair(ctx, case["opts"])
+    R, A = "R" in case["layout"], "A" in case["layout"]
+    genuine = fed.issue(idp, case["identity"], sign_response=R, sign_assertion=A)
+    d = xk.Doc(genuine)
+    leaf = [n for n in d.find(xk.SAML, "AttributeValue")] or d.find(xk.SAML, "NameID")
+    forged = d.set_text(leaf[0], "attacker-" + d.inner(leaf[0]).decode()).text()
+    r0, e0 = fed.deliver(sp, genuine, dict(OUT))
+    if r0 is None:
+        return {"outcome": "pristine-rejected", "nontrivial": False, "violations": [], "counters": {"threads_pristine_rejected": 1}}
+    base = _identity(r0)
+    seen = {"forged_accepted": [], "genuine_rejected": 0, "genuine_accepted": 0, "forged_rejected": 0}
+
+    def genuine_loop():
+        for _ in range(case["rounds"]):
+            r, e = fed.deliver(sp, genuine, dict(OUT))
+            if r is None:
+                seen["genuine_rejected"] += 1
+            else:
+                seen["genuine_accepted"] += 1
+
+    def forged_loop():
+        for _ in range(case["rounds"]):
+            r, e = fed.deliver(sp, forged, dict(OUT))
+            if r is not None:
+                seen["forged_accepted"].append(_identity(r))
+            else:
+                seen["forged_rejected"] += 1
+    res, errs, stats = interleave.run_threads([genuine_loop, forged_loop, genuine_loop], "%s/%s" % (ctx.seed, case["id"]), p=0.05, timeout=600)
+    viol = []
+    if seen["forged_accepted"]:
+        viol.append({"key": "C01/identity-from-unsigned-bytes/under-concurrency",
+                     "what": "one SP shared by three threads (layout %s, opts %s): an edited copy of a signed response was accepted %d time(s) while the genuine one was being "
+                             "verified by the other threads; identity reported %r" % (case["layout"], case["opts"], len(seen["forged_accepted"]), seen["forged_accepted"][0].get("ava"))})
+    for e in errs:
+        if e is not None:
+            viol.append({"key": "C01/thread-raised", "what": repr(e)})
+    return {"outcome": "violations" if viol else "held", "nontrivial": seen["forged_rejected"] > 0, "violations": viol,
+            "counters": {"threads_forged_rejected": seen["forged_rejected"], "threads_genuine_accepted": seen["genuine_accepted"],
+                         "threads_genuine_rejected": seen["genuine_rejected"], "yields_injected": stats["yields_injected"]},
+            "sigs": [["threads", case["k"]]], "evals": 3 * case["rounds"]}
 
 
 def setup_worker(ctx):
@@ -253,6 +302,8 @@ def check_accept(case, name, target, rmode, text, resp, evs, base_ident, pr):
 
 def run_case(case, ctx):
     import saml2_tophat.sigver as sv
+    if case.get("kind") == "threads":
+        return run_threads_case(case, ctx)
     sp, idp = _pair(ctx, case["opts"])
     lenient, _ = _pair(ctx, (0, 0, 0))
     pr = pristine(case, idp)
